@@ -16,9 +16,11 @@ package statesync
 // Peers are numbered: peer n has p2p.ID "pNN" (0 = the empty id), string order = numeric order.
 
 import (
+	"bytes"
 	"context"
 	"errors"
 	"fmt"
+	"math"
 	"runtime"
 	"strconv"
 	"strings"
@@ -597,6 +599,13 @@ func c14SyncCase(t *testing.T, r *vg.Rand, directed int) (term, descr string, ki
 	bigH := uint64(1<<64 - 1)
 	// heights >= 2^63-2 are refused by the real provider (int64(height+2) is not positive)
 	heights := []uint64{1, 2, 3, 4, 5}
+	var vt *c14VerifyCase
+	if directed >= 100 {
+		vt = &c14VerifyTable[directed-100]
+		if vt.H > 5 {
+			heights = append(heights, vt.H)
+		}
+	}
 	for _, h := range heights {
 		e := c14ProvEntry{appHash: []byte{0xa0, byte(h)}, mark: []byte{0xb0, byte(h)}, commit: []byte{0xc0, byte(h)}, appV: uint64(1 + r.Intn(2))}
 		if directed == 0 {
@@ -615,9 +624,26 @@ func c14SyncCase(t *testing.T, r *vg.Rand, directed int) (term, descr string, ki
 				e.cmCode = 2
 			}
 		}
+		if directed == 0 {
+			// boundary values of the trusted app hash (the genesis app hash is often empty) and version
+			switch r.Intn(10) {
+			case 0:
+				e.appHash = nil
+			case 1:
+				e.appHash = []byte{}
+			case 2:
+				e.appHash = append(bytes.Repeat([]byte{0}, 31), byte(h))
+			}
+			if r.Chance(12) {
+				e.appV = 0
+			}
+		}
+		if vt != nil && h == vt.H {
+			e.appHash, e.appV = vt.trusted, vt.trustedV
+		}
 		prov.tbl[h] = e
 		provTerms = append(provTerms, vg.Tup(c14U(h), vg.Tup(vg.Z(int64(e.ahCode)), vg.Hx(e.appHash)),
-			vg.Tup(vg.Z(int64(e.stCode)), vg.Z(int64(e.appV)), vg.Hx(e.mark)), vg.Tup(vg.Z(int64(e.cmCode)), vg.Hx(e.commit))))
+			vg.Tup(vg.Z(int64(e.stCode)), c14U(e.appV), vg.Hx(e.mark)), vg.Tup(vg.Z(int64(e.cmCode)), vg.Hx(e.commit))))
 		provDescr = append(provDescr, fmt.Sprintf("h%d:{AppHash:(%d,%x) State:(%d,app version %d,AppHash %x) Commit:(%d,%x)}",
 			h, e.ahCode, e.appHash, e.stCode, e.appV, e.mark, e.cmCode, e.commit))
 	}
@@ -642,6 +668,11 @@ func c14SyncCase(t *testing.T, r *vg.Rand, directed int) (term, descr string, ki
 		known = []c14Snap{{H: bigH, F: 1, C: 1, Hash: []byte{0x31}}}
 		d.addSnapshot(1, known[0])
 	default:
+		if vt != nil {
+			known = []c14Snap{{H: vt.H, F: 1, C: 1, Hash: []byte{0x31}}}
+			d.addSnapshot(1, known[0])
+			break
+		}
 		for i := 0; i < nsn; i++ {
 			sn := c14GenSnap(r)
 			if r.Chance(4) {
@@ -733,7 +764,7 @@ func c14SyncCase(t *testing.T, r *vg.Rand, directed int) (term, descr string, ki
 					cm = y.res.commit.BlockID.Hash
 				}
 			}
-			finalTerm = vg.App("IDone", vg.Z(int64(code)), vg.Z(int64(appv)), vg.Hx(mark), vg.Z(lh), vg.Hx(cm))
+			finalTerm = vg.App("IDone", vg.Z(int64(code)), c14U(appv), vg.Hx(mark), vg.Z(lh), vg.Hx(cm))
 			finalDescr = fmt.Sprintf("SyncAny returned class %d (err=%v panic=%v) state{App:%d AppHash:%x LastBlockHeight:%d} commit %x",
 				code, y.res.err, y.res.panicv, appv, mark, lh, cm)
 			break
@@ -846,7 +877,8 @@ func c14SyncCase(t *testing.T, r *vg.Rand, directed int) (term, descr string, ki
 			e := prov.tbl[cur.H]
 			hash, height, appv := e.appHash, int64(cur.H), e.appV
 			if directed == 0 {
-				switch r.Intn(12) {
+				// boundary values around the three comparisons of verifyApp
+				switch r.Intn(30) {
 				case 0:
 					hash = []byte{0xee}
 				case 1:
@@ -857,9 +889,45 @@ func c14SyncCase(t *testing.T, r *vg.Rand, directed int) (term, descr string, ki
 					height = 0
 				case 4:
 					height = -height
+				case 5:
+					hash = nil // an empty report
+				case 6:
+					hash = append(append([]byte{}, hash...), 0) // longer
+				case 7:
+					if len(hash) > 0 {
+						hash = hash[:len(hash)-1] // a proper prefix
+					} else {
+						hash = []byte{0}
+					}
+				case 8:
+					height--
+				case 9:
+					height = math.MaxInt64
+				case 10:
+					if appv == 0 {
+						appv = 1
+					} else {
+						appv = 0
+					}
+				case 11:
+					appv-- // wraps to 2^64-1 from 0
+				case 12:
+					height = math.MinInt64
+				case 13:
+					if len(hash) > 0 {
+						hash = append([]byte{}, hash...)
+						hash[len(hash)-1] ^= 1
+					} else {
+						hash = bytes.Repeat([]byte{0}, 32)
+					}
+				case 14:
+					height += 1 << 32
 				}
 			}
-			d.ev(vg.App("TInfoReply", vg.Z(int64(appv)), vg.Hx(hash), vg.Z(height)), 0,
+			if vt != nil {
+				hash, height, appv = vt.hash, vt.height, vt.appV
+			}
+			d.ev(vg.App("TInfoReply", c14U(appv), vg.Hx(hash), vg.Z(height)), 0,
 				fmt.Sprintf("Info reply {AppVersion:%d LastBlockAppHash:%x LastBlockHeight:%d}", appv, hash, height))
 			app.rep <- c14Rep{info: abci.ResponseInfo{AppVersion: appv, LastBlockAppHash: hash, LastBlockHeight: height}}
 		case 4: // Next is blocked on y.idx: the peers act until it arrives
@@ -889,6 +957,9 @@ func c14SyncCase(t *testing.T, r *vg.Rand, directed int) (term, descr string, ki
 	kind = "sync"
 	if directed != 0 {
 		kind = fmt.Sprintf("sync-directed-%d", directed)
+	}
+	if vt != nil {
+		kind = "sync-verifyapp-boundary"
 	}
 	return vg.App("CSync", vg.L(provTerms), vg.L(d.items)),
 		"state provider " + strings.Join(provDescr, " ") + "; ChunkFetchers=0; " + strings.Join(d.descr, "; "),
@@ -980,6 +1051,77 @@ func c14DirectedArrival(d *c14Driver, directed int, script *int, cur c14Snap, id
 	}
 }
 
+// Directed boundary table of verifyApp (directed = 100 + index): a one-chunk snapshot of height H
+// whose trusted (state provider) app hash / app version are trusted / trustedV is restored without
+// incident, then the application's Info reports (hash, height, appV).  The node may start only if
+// hash == trusted byte for byte (an empty trusted hash is matched by an empty report only),
+// height == H and appV == trustedV.
+type c14VerifyCase struct {
+	H        uint64
+	trusted  []byte
+	trustedV uint64
+	hash     []byte
+	height   int64
+	appV     uint64
+}
+
+var (
+	c14T1  = []byte{0xa0, 0x03}
+	c14T32 = append(bytes.Repeat([]byte{0x5a}, 31), 0x03)
+)
+
+var c14VerifyTable = []c14VerifyCase{
+	// empty trusted hash
+	{3, nil, 2, []byte{0xee}, 3, 2},
+	{3, nil, 2, nil, 3, 2},
+	{3, []byte{}, 2, []byte{}, 3, 2},
+	{3, []byte{}, 2, []byte{0}, 3, 2},
+	{3, nil, 2, bytes.Repeat([]byte{0}, 32), 3, 2},
+	{3, nil, 2, c14T32, 3, 2},
+	// non-empty trusted hash: empty report, prefix, longer, different, equal
+	{3, c14T1, 2, nil, 3, 2},
+	{3, c14T1, 2, []byte{}, 3, 2},
+	{3, c14T1, 2, []byte{0xa0}, 3, 2},
+	{3, c14T1, 2, []byte{0xa0, 0x03, 0x00}, 3, 2},
+	{3, c14T1, 2, []byte{0xa0, 0x02}, 3, 2},
+	{3, c14T1, 2, []byte{0x03, 0xa0}, 3, 2},
+	{3, c14T1, 2, c14T1, 3, 2},
+	{3, c14T32, 2, c14T32[:31], 3, 2},
+	{3, c14T32, 2, append(append([]byte{}, c14T32...), 0x03), 3, 2},
+	{3, c14T32, 2, c14T32, 3, 2},
+	// heights
+	{3, c14T1, 2, c14T1, 0, 2},
+	{3, c14T1, 2, c14T1, 2, 2},
+	{3, c14T1, 2, c14T1, 4, 2},
+	{3, c14T1, 2, c14T1, math.MaxInt64, 2},
+	{3, c14T1, 2, c14T1, math.MaxInt64 - 1, 2},
+	{3, c14T1, 2, c14T1, math.MinInt64, 2},
+	{3, c14T1, 2, c14T1, -3, 2},
+	{3, c14T1, 2, c14T1, -1, 2},
+	{3, c14T1, 2, c14T1, 3 + 1<<32, 2},
+	{1, c14T1, 2, c14T1, 0, 2},
+	{1, c14T1, 2, c14T1, 1, 2},
+	{math.MaxInt64, c14T1, 2, c14T1, math.MaxInt64, 2},
+	{math.MaxInt64, c14T1, 2, c14T1, math.MaxInt64 - 1, 2},
+	{math.MaxInt64, c14T1, 2, c14T1, -1, 2},
+	{math.MaxInt64, c14T1, 2, c14T1, math.MinInt64, 2},
+	// app versions
+	{3, c14T1, 2, c14T1, 3, 0},
+	{3, c14T1, 2, c14T1, 3, 1},
+	{3, c14T1, 2, c14T1, 3, 3},
+	{3, c14T1, 2, c14T1, 3, 2 + 1<<32},
+	{3, c14T1, 0, c14T1, 3, 0},
+	{3, c14T1, 0, c14T1, 3, 1},
+	{3, c14T1, 0, c14T1, 3, math.MaxUint64},
+	{3, c14T1, math.MaxUint64, c14T1, 3, math.MaxUint64},
+	{3, c14T1, math.MaxUint64, c14T1, 3, math.MaxUint64 - 1},
+	{3, c14T1, 1, c14T1, 3, 0},
+	// two things wrong at once, one of them hidden behind an empty trusted hash
+	{3, nil, 2, nil, 4, 2},
+	{3, nil, 2, []byte{0xee}, 3, 3},
+	{3, nil, 0, []byte{0xee}, 0, 0},
+}
+
 func TestVerifC14Sync(t *testing.T) {
 	cs := vg.NewCases("C14", "c14_sync", "TM.C14.Exec")
 	root := vg.NewRand(vg.Seed())
@@ -990,6 +1132,14 @@ func TestVerifC14Sync(t *testing.T) {
 		}
 		term, descr, kind, _ := c14SyncCase(t, root.Fork(uint64(1000000+directed)), directed)
 		cs.Add(id, kind, true, term, descr)
+	}
+	for i := range c14VerifyTable {
+		id := cs.NextID()
+		if !cs.Want(id) {
+			continue
+		}
+		term, descr, kind, _ := c14SyncCase(t, root.Fork(uint64(2000000+i)), 100+i)
+		cs.Add(id, kind, false, term, descr)
 	}
 	n := vg.Scale(240, 20000)
 	for k := 0; k < n; k++ {
